@@ -30,6 +30,18 @@ CHECKS = {
             'Every placement (far outside, on faces, inside) in right/left-handed, tilted and rotated cells under all periodicity settings is executed; image flags must reconstruct positions, non-periodic directions may only grow the cell, '
             'normalize must be a proper rotation preserving all true nearest-image distances (exhaustive lattice search) and the input. The second wrap starts from a non-initial state.', '2 C05',
             'systems of 1-3 atoms; 1e-11 scaled tolerance; atoms nominally on a face may be assigned to either side'),
+    'C06': (MC, 'explicit-state BFS over histories of Atoms/System edit operations on one live System with a record-per-atom reference model; dedup on the model state; every transition compared with the model, the refusal list and all copying accessors',
+            'All histories of depth <= 2 over 80 operation instances plus a third operation from 50 representatives (thorough: full depth 3 and a depth-4 core) are replayed on fresh real objects and on a list-of-records model with hidden atom ids; in every state '
+            'rectangularity, row alignment, values, atype >= 1, symbols/masses length, non-aliasing of every copying accessor (np.shares_memory + mutation) and immutability of operands of earlier operations are checked. Right level: the property quantifies over edit histories.', '2 C06',
+            '3-5 atoms, dyadic values (exact comparison); operations outside the documented API (indexed writes of invalid atype) are out of the alphabet; a violating state is reported and not expanded'),
+    'C10': (EX, 'bounded-exhaustive enumeration of values/Box/Atoms/System/ElasticConstants x unit choices x encodings (DataModelDict, JSON text, XML text, dump/load system_model) x (write configuration, read configuration) pairs of working units',
+            'Every element of the product is written by the real model() code under one working-unit configuration and read back under another; stored unit fields, stored physical values, shapes, dtypes kinds, strings/booleans, cell, origin, pbc, symbols, masses and scaled positions are compared '
+            'with an independent unit-factor table. Right level: stateless serialisers + a global configuration that is enumerated (16-36 configuration pairs).', '2 C10',
+            'tolerance 1e-11 relative for quantities with a unit (exact for unit None, strings, booleans); one known finding (one-element 1-D array collapses to a scalar through XML)'),
+    'C19': (MC, 'explicit-state BFS over Log()/read(append=True|False) histories with a list-of-tables reference model, plus crash-point enumeration: every line-boundary (and mid-row) truncation of the last block of every generated log shape',
+            'Logs are synthesised by an independent generator (both memory banners, 0-3 run/minimize blocks, keyword sets with int and float columns, disjoint/overlapping/boundary-sharing step ranges, with/without timing breakdown, filler lines) and every truncation point of the last block is enumerated; '
+            'records, column names, values row for row, version/date, and flatten first/last/all are compared with the generator\'s own tables; read histories of depth 3 (4 thorough) are explored to check append/reset semantics. Right level: crash points and read histories are finite and enumerated completely.', '2 C19',
+            'log layouts limited to the generator\'s grammar; a mid-number truncation must leave complete tokens numeric and the fragment NaN; row order of flatten not constrained'),
     'C07': (EX, 'bounded-exhaustive enumeration of systems x 8 pbc x every atom_style x 8 unit styles x float formats (data files), column variants (dump files), table and POSCAR options; every written file is parsed by independent format readers and compared column by column',
             'Every file of the product is written by the real dump code and read by parsers written from the LAMMPS read_data / dump and VASP POSCAR rules (no atomman loader), with an independent LAMMPS unit table; header counts, bounds/tilt conventions, '
             'ids, atoms inside the written box, positions after image flags / unscaling, velocities, charges, extra columns and the info snippet are checked to the printed precision. Right level: stateless writers, quantifier over inputs and option combinations.', '2 C07',
